@@ -252,6 +252,70 @@ def load_corpus(pid):
     return cases
 
 
+
+# ----------------------------------------------------------------------------
+# Source fingerprint: which of the library files a property's model was written against have changed?
+# ----------------------------------------------------------------------------
+FINGERPRINT = VERIF / "harness" / "fingerprint.json"
+ESCALATION_S = float(os.environ.get("VERIF_ESCALATION_S", "150"))
+
+
+def _ast_hash(path):
+    """Hash of the file's AST without docstrings (comments and layout are not in the AST)."""
+    import ast
+    import hashlib
+
+    try:
+        tree = ast.parse(Path(path).read_text())
+    except (OSError, SyntaxError) as e:
+        return f"unreadable:{type(e).__name__}"
+    for node in ast.walk(tree):
+        body = getattr(node, "body", None)
+        if isinstance(body, list) and body and isinstance(body[0], ast.Expr) and isinstance(getattr(body[0], "value", None), ast.Constant) and isinstance(body[0].value.value, str):
+            node.body = body[1:] or [ast.Pass()]
+    return hashlib.sha256(ast.dump(tree, include_attributes=False).encode()).hexdigest()[:20]
+
+
+def property_source_files(pid, mod=None):
+    """The library files the property is anchored in (properties.jsonl) plus what the module adds (SOURCE_FILES)."""
+    files = []
+    try:
+        for line in (VERIF / "properties.jsonl").read_text().splitlines():
+            if line.strip():
+                pr = json.loads(line)
+                if pr.get("id") == pid:
+                    files = list(pr.get("anchors", {}).get("files", []))
+    except OSError:
+        pass
+    for f in getattr(mod, "SOURCE_FILES", []) if mod is not None else []:
+        if f not in files:
+            files.append(f)
+    return files
+
+
+def fingerprint_all():
+    root = REPO / "spec_classes"
+    return {str(f.relative_to(REPO)): _ast_hash(f) for f in sorted(root.rglob("*.py")) if f.name != "_version.py"}
+
+
+def changed_sources(pid, mod):
+    """Files of the property whose AST differs from the recorded fingerprint (the tree the model and its generators were
+    last validated against). A difference is NOT a violation; it directs a deeper differential run (escalation)."""
+    try:
+        fp = json.loads(FINGERPRINT.read_text())
+        base = fp["files"]
+        if fp.get("python") != sys.version.split()[0]:
+            return None, []  # ast.dump differs between interpreter versions: no statement possible
+    except (OSError, ValueError, KeyError):
+        return None, []
+    files = property_source_files(pid, mod)
+    changed = []
+    for f in files:
+        if base.get(f) != _ast_hash(REPO / f):
+            changed.append(f)
+    return files, changed
+
+
 class _RepoShared:
     """Several workers share /repo while the framework is being built: `tools/seed_run.py` holds this lock
     exclusively while a seeded patch is applied; ordinary check runs hold it shared (no-op when uncontended)."""
@@ -419,6 +483,69 @@ def _run_check(mod, tier, seed, replay=None):
         disagreements.extend(ex.get("disagreements", []))
         extra_info = ex.get("info", {})
 
+    # ---- 2c. escalation: the property's source files differ from the fingerprinted tree -------------------------
+    # A harmless rewrite changes the fingerprint too, so this is never a verdict: it buys a deeper differential run
+    # (fresh cases from the `search` generator, model vs code and oracle, until the time budget is spent or something
+    # turns up) exactly when the code under the model has changed.
+    fp_files, fp_changed = changed_sources(pid, mod)
+    escalation = {"files": fp_files, "changed": fp_changed, "cases": 0, "wall_s": 0.0}
+    nothing_yet = not [ov for ov in oracle_violations if not is_known(ov["case"], ov["violation"])] and not [
+        d for d in disagreements if not is_known(d["case"], ["correspondence"])
+    ]
+    if os.environ.get("VERIF_FORCE_ESCALATION") == "1" and not fp_changed:
+        fp_changed = ["(forced: VERIF_FORCE_ESCALATION=1)"]  # soak runs of the search generator on the unchanged tree
+        escalation["changed"] = fp_changed
+    if fp_changed and tier == "quick" and nothing_yet and not proof_problems and hasattr(mod, "gen_cases") and ESCALATION_S > 0:
+        import itertools
+
+        t_esc = time.time()
+        gen = mod.gen_cases("search", random.Random(seed + 11))
+        found = False
+        while not found and time.time() - t_esc < ESCALATION_S:
+            batch = list(itertools.islice(gen, 150))
+            if not batch:
+                break
+            b_in, b_spans = [], []
+            for c in batch:
+                ls = mod.model_lines(c)
+                b_spans.append((len(b_in), len(ls)))
+                b_in.extend(ls)
+            b_out = run_driver(mod.DRIVER, b_in) if ok else None
+            for idx, c in enumerate(batch):
+                escalation["cases"] += 1
+                try:
+                    real = mod.real_lines(c)
+                except Infra:
+                    raise
+                except Exception as e:
+                    real = [f"harness-exception {type(e).__name__}: {e}"]
+                if b_out is not None:
+                    s0, n0 = b_spans[idx]
+                    mo = b_out[s0 : s0 + n0]
+                    if len(real) != n0:
+                        d = {"case": c, "at": min(len(real), n0), "real": real[-3:], "model": mo[-3:], "why": "length"}
+                        if not is_known(c, ["correspondence"]):
+                            disagreements.append(d)
+                            found = True
+                    else:
+                        for i, (a, b) in enumerate(zip(real, mo)):
+                            lines_compared += 1
+                            if a != b:
+                                if not is_known(c, ["correspondence"]):
+                                    disagreements.append({"case": c, "at": i, "real": a, "model": b})
+                                    found = True
+                                break
+                for key in mod.nontrivial(c, real):
+                    nontrivial.add(_hash(key))
+                v = mod.oracle(c)
+                if v:
+                    oracle_violations.append({"case": c, "violation": v})
+                    if not is_known(c, v):
+                        found = True
+                if found or time.time() - t_esc >= ESCALATION_S:
+                    break
+        escalation["wall_s"] = round(time.time() - t_esc, 2)
+
     # ---- 3. known findings ----------------------------------------------
     known_lines = []
     for k in open_known:
@@ -508,8 +635,9 @@ def _run_check(mod, tier, seed, replay=None):
             "theorems": [t["name"] for t in theorems],
             "proof_problems": proof_problems,
             "leanchecker_rc": leanchecker,
-            "evaluations": len(cases) + extra_evals,
+            "evaluations": len(cases) + extra_evals + escalation["cases"],
             "extra": extra_info,
+            "source_fingerprint": escalation,
             "distinct_nontrivial": len(nontrivial),
             "rule": getattr(mod, "RULE", ""),
             "samples": samples,
